@@ -11,11 +11,13 @@ META = {
     "bounds": "coap_pdu_parse on every byte string of length n (exact-size heap object) per transport: n<=8 quick / <=10 "
               "thorough with the rejected-PDU dump cut, n<=2 quick / <=3 thorough with the dump present; PDU allocated as "
               "coap_handle_dgram/coap_read_session do (size 1152) and as the persist loader does (size 0); accessor sweep "
-              "n<=5 (t: 8); coap_handle_dgram isolation n<=6 (t: 8); option leaf functions n<=6. Unwinding assertions on "
+              "n<=5 (t: 8); coap_handle_dgram isolation n<=6 (t: 8); option leaf functions n<=6; coap_show_pdu (debug walk, real coap_debug.c) on exact-size messages with one "
+              "option of each printer class (OSCORE, Block, Content-Format, Uri-Port, Observe, ETag, No-Response, Rtag, Uri-Path, Hop-Limit, Size1, Echo, unknown) and every value "
+              "length up to the printer's maximum, value bytes symbolic; the 4-entry received-blocks range table from any well-formed state. Unwinding assertions on "
               "(termination inside the bound). Log level arbitrary 0..8.",
     "outside": "inputs longer than the per-job n through whole-message parsing; stream readers (decided under C05 with the "
                "same memory obligations); OSCORE option input (C14); endpoint states beyond the S-shape pre-states of C05/C06/C11/C15; "
-               "coap_debug.c pretty printer",
+               "coap_debug.c beyond coap_show_pdu on the listed single-option shapes (value lengths 0..max per printer) and 4-byte messages (thorough)",
     "assumptions": [
         "CBMC built-in obligations: pointer dereference/bounds/use-after-free/double-free, pointer overflow, signed overflow, undefined shift, unwinding assertions",
         "coap_log_impl stubbed empty (formatting not executed), log level arbitrary; allocator never fails",
@@ -78,7 +80,7 @@ def jobs():
     for n in range(4, 5):     # n >= 5 (symbolic option number x name tables x per-option printers): SAT out of memory at 16 GB
         js.append(Job("show-pdu@udp-n%02d" % n, "C02/c02d.c", "c02_show_pdu", units_dbg, extra_src=EXTRA, unit_defines=CUT,
                       defines=["N=%d" % n], unwind=n + 2, unwindset=uw_dbg, termination=True, group="show-pdu", remove_bodies=rb_dbg,
-                      tier="quick" if n <= 6 else "thorough", timeout=1500, mem_gb=16, est_gb=2 + n / 2.0,
+                      tier="thorough", timeout=2400, mem_gb=28, est_gb=20,   # 16 GB were not enough when other jobs ran beside it
                       desc="coap_show_pdu (debug-level walk) on every accepted %d-byte UDP message, exact-size PDU" % n, bounds={"n": n}))
     # the option printers with their own value parsing, concrete layout, value bytes symbolic, every value length 0..L
     for num, name, minlen, maxlen in ((9, "oscore", 0, 8), (23, "block2", 0, 3), (27, "block1", 0, 3), (12, "content-format", 0, 2), (17, "accept", 0, 2),
